@@ -47,7 +47,7 @@ def _handler_protocol(ex, st, post, result):
     if not renders:
         return
     i_r, r = renders[0]
-    chk = [(i, e) for i, e in T.evs(st, 'check_request', 'layer', 'TileServer.layer', 'KMLServer.layer')]
+    chk = [(i, e) for i, e in T.evs(st, 'check_request', 'WMTSServer.check_request', 'layer', 'TileServer.layer', 'KMLServer.layer')]
     dim = [(i, e) for i, e in T.evs(st, 'check_request_dimensions')]
     auth = [(i, e) for i, e in enumerate(st.trace) if e.name.endswith('authorize_tile_layer')]
     req = None
